@@ -229,16 +229,22 @@ func runWatchdog(what string) (stop func()) {
 				mutexBlocked = true
 			}
 		}
-		if !mutexBlocked && len(first) > 0 {
+		if !mutexBlocked {
 			// nobody waits for a lock, yet simulated time stands still: is a goroutine of the system under
-			// test burning CPU without ever blocking? look again a little later
-			time.Sleep(8 * time.Second)
-			n2 := runtime.Stack(buf, true)
-			for id, g := range busy(string(buf[:n2])) {
-				if _, again := first[id]; again {
-					fmt.Fprintf(os.Stderr, "\nSPINNING: run %s made no end in %s of wall time and simulated time cannot advance: goroutine %s of the system under test is runnable without ever blocking:\n%s\n\n", what, limit, id, g)
-					os.Exit(4)
+			// test burning CPU without ever blocking? sample a few times (a single dump can catch it in a
+			// transient state) and look for one that is busy in two consecutive samples
+			prev := first
+			for k := 0; k < 5; k++ {
+				time.Sleep(4 * time.Second)
+				n2 := runtime.Stack(buf, true)
+				cur := busy(string(buf[:n2]))
+				for id, g := range cur {
+					if _, again := prev[id]; again {
+						fmt.Fprintf(os.Stderr, "\nSPINNING: run %s made no end in %s of wall time and simulated time cannot advance: goroutine %s of the system under test is runnable without ever blocking:\n%s\n\n", what, limit, id, g)
+						os.Exit(4)
+					}
 				}
+				prev = cur
 			}
 		}
 		fmt.Fprintf(os.Stderr, "\nWEDGED: run %s made no end in %s of wall time; goroutines blocked on a mutex inside the bubble:\n", what, limit)
